@@ -5,6 +5,7 @@ import (
 	"encoding/json"
 	"fmt"
 	"os"
+	"regexp"
 	"sort"
 	"strconv"
 	"strings"
@@ -51,6 +52,8 @@ type Run struct {
 	Sites *SiteTable
 	// Mode "fixed" lets a scenario be forced into a sub-configuration (sensitivity tests).
 	Opt map[string]string
+	// genShared: the value generator produced a pointer graph with sharing or a cycle.
+	genShared bool
 }
 
 // Scenario runs one simulated run; it records violations with r.Sim.Fail / r.Fail.
@@ -58,11 +61,18 @@ type Scenario func(r *Run)
 
 var scenarios = map[string]Scenario{}
 
+// batchProps: properties whose cases share no process-global state that matters
+// (pure CPU code under a simulated reader or byte faults): one worker process
+// executes many run indices, each with its own tape.
+var batchProps = map[string]bool{}
+
+var hexRe2 = regexp.MustCompile(`0x[0-9a-f]+|\b\d+\b`)
+
 // Plan helpers (plan stream).
-func (r *Run) Plan(n int) int                 { return r.Tape.Choose(verifsim.StreamPlan, n) }
-func (r *Run) PlanBool(den int) bool          { return den > 1 && r.Plan(den) == den-1 }
-func (r *Run) PlanOf(xs ...string) string     { return xs[r.Plan(len(xs))] }
-func (r *Run) PlanInt(xs ...int) int          { return xs[r.Plan(len(xs))] }
+func (r *Run) Plan(n int) int                            { return r.Tape.Choose(verifsim.StreamPlan, n) }
+func (r *Run) PlanBool(den int) bool                     { return den > 1 && r.Plan(den) == den-1 }
+func (r *Run) PlanOf(xs ...string) string                { return xs[r.Plan(len(xs))] }
+func (r *Run) PlanInt(xs ...int) int                     { return xs[r.Plan(len(xs))] }
 func (r *Run) PlanDur(xs ...time.Duration) time.Duration { return xs[r.Plan(len(xs))] }
 func (r *Run) Param(k string, v interface{}) {
 	if r.Res.Params == nil {
@@ -77,7 +87,9 @@ func (r *Run) Param(k string, v interface{}) {
 		}
 	}
 }
-func (r *Run) Note(f string, a ...interface{}) { r.Res.Notes = append(r.Res.Notes, fmt.Sprintf(f, a...)) }
+func (r *Run) Note(f string, a ...interface{}) {
+	r.Res.Notes = append(r.Res.Notes, fmt.Sprintf(f, a...))
+}
 
 // Fail records a violation (first one wins).
 func (r *Run) Fail(class, f string, a ...interface{}) {
